@@ -80,8 +80,48 @@ structure View where
   decodeOk : Bool            -- transfertypes.ModuleCdc.UnmarshalJSON(packet.GetData(), &data) == nil
   amount : Option Int        -- sdk.NewIntFromString(data.Amount)
   receiver : Option Addr     -- sdk.AccAddressFromBech32(data.Receiver) (none = error)
-  denom : Denom              -- types.IBCDenom(packet.DestPort, packet.DestChannel, data.Denom)
+  denom : Denom              -- types.IBCDenom(packet.DestPort, packet.DestChannel, data.Denom) = `hookDenom H fields`
   deriving Repr
+
+/-! ### which denomination? (routing fields of the packet + `data.Denom`) -/
+
+/-- The packet fields that determine denominations: source / destination port and channel, and `data.Denom`. -/
+structure Fields where
+  srcPort : String
+  srcChan : String
+  dstPort : String
+  dstChan : String
+  denom : String          -- FungibleTokenPacketData.Denom as decoded ("" when undecodable)
+  deriving Repr
+
+/-- `transfertypes.GetDenomPrefix(port, channel)` = "port/channel/". -/
+def denomPrefix (port chan : String) : String := port ++ "/" ++ chan ++ "/"
+
+/-- `transfertypes.ReceiverChainIsSource(port, channel, denom)` = `strings.HasPrefix(denom, GetDenomPrefix(port, channel))`. -/
+def hasPrefix (port chan denom : String) : Bool := (denomPrefix port chan).toList.isPrefixOf denom.toList
+
+/-- `denom[len(prefix):]`. -/
+def stripPrefix (port chan denom : String) : String := String.ofList (denom.toList.drop (denomPrefix port chan).toList.length)
+
+/-- `ParseDenomTrace(raw)` followed by "`IBCDenom()` if the path is not empty, else the raw base denomination":
+    a raw denomination without "/" is a base denomination, otherwise the voucher "ibc/" + HEX(sha256(raw)).
+    `H` is that hash naming (external: sha256). -/
+def voucherOf (H : String → Denom) (raw : String) : Denom :=
+  if raw.toList.contains '/' then H raw else raw
+
+/-- The denomination the ICS-20 transfer application credits to the receiver (ibc-go v3.0.0
+    `transfer/keeper/relay.go OnRecvPacket`): the coin RETURNS when `data.Denom` starts with the SOURCE port/channel
+    prefix (prefix stripped; native coin or the local voucher of the rest); otherwise the voucher of the trace
+    prefixed with the DESTINATION port/channel. -/
+def creditedDenom (H : String → Denom) (f : Fields) : Denom :=
+  if hasPrefix f.srcPort f.srcChan f.denom then voucherOf H (stripPrefix f.srcPort f.srcChan f.denom)
+  else H (denomPrefix f.dstPort f.dstChan ++ f.denom)
+
+/-- The denomination the hook converts: `types.IBCDenom(packet.GetDestPort(), packet.GetDestChannel(), data.Denom)`
+    (x/aggregate/types/ibc.go): ALWAYS the voucher of the trace prefixed with the destination port/channel
+    (the prefixed string always contains "/", so `ParseDenomTrace(..).IBCDenom()` is the hash form). -/
+def hookDenom (H : String → Denom) (f : Fields) : Denom :=
+  H (denomPrefix f.dstPort f.dstChan ++ f.denom)
 
 /-- The wrapped application (ICS-20 transfer): acknowledgement (never nil: the transfer application is
     synchronous) and state effect (mint voucher / unescrow native coin, possibly partial on error). -/
